@@ -173,8 +173,9 @@ CLAIMED = {
    design="6/C04", engine="coq-core",
    technique="Coq proof (layer-by-layer functor semantics) + extracted-model correspondence + == oracle"),
  "C03": dict(
-   text="17 theorems about a Gallina model of __eq__/__hash__/__repr__ in the monoidal and rigid classes: equality is "
-        "an equivalence and holds iff dom, cod, boxes, offsets agree; a box equals its wrapping one-box diagram through "
+   text="19 theorems about a Gallina model of __eq__/__hash__/__repr__ in the monoidal and rigid classes: equality is "
+        "an equivalence and holds iff dom, cod, boxes, offsets agree; on well-typed values that is identity of the whole "
+        "value (layer view and codomain are determined by dom, boxes, offsets); a box equals its wrapping one-box diagram through "
         "both dispatch paths; equal values print identically, hence hash identically for every hash function of the "
         "repr; a Gallina recursive-descent parser of the printed constructor syntax round-trips every type, object, box, "
         "well-typed diagram and sum (repr_roundtrip), hence repr is injective.  Tie to /repo: repr strings compared "
